@@ -17,7 +17,8 @@ inductive SPc where
   | len1                 -- `if len(c.writeQueue) > 0 { continue }`
   | flush                -- about to Flush
   | store                -- about to store running = idle
-  | failed               -- Writev/Flush failed: recover, about to store idle and Close
+  | failed               -- Writev/Flush failed: recover, about to mark the failure
+  | failedStore          -- about to store idle, then Close
   deriving DecidableEq, Repr
 
 /-- senders that have released ownership (double check after `Store idle`) -/
@@ -27,7 +28,8 @@ inductive LPc where
 
 /-- program counter of the Close call that won the `closed` CAS -/
 inductive CPc where
-  | load (n : Nat)       -- wait loop: about to load `running` (n = polls so far)
+  | len (n : Nat)        -- wait loop: about to read len(writeQueue) (n = polls so far)
+  | load (n : Nat)       -- queue seen empty: about to load `running`
   | sleep (n : Nat)
   | setErr | trClose | cancel | fire
   deriving DecidableEq, Repr
@@ -54,27 +56,35 @@ structure St (α : Type) where
   closer : Option CPc := none
   -- anonymous clients
   pendingCas : Nat := 0              -- async writers between enqueue and their CAS
+  inflight : Nat := 0                -- write calls that passed the closed-check and have not yet enqueued / locked / given up
+  sendFailed : Bool := false         -- the sender gave up after a transport failure
   -- ghost history
   wire : List α := []                -- packets handed to the transport, in order
   flushed : Nat := 0                 -- how many of them were flushed
   accepted : List α := []            -- packets in acceptance order (enqueue / sync transport write)
-  acceptedAtClose : Option Nat := none   -- |accepted| when the winning Close read `running = idle`
+  accAtLen : Nat := 0                -- |accepted| when the closer last saw the queue empty
+  graceful : Bool := false           -- the closer left its wait loop because queue empty and sender idle
+  closeCount : Nat := 0              -- number of transport.Close calls
   trCloseWire : Option (Nat × Nat) := none  -- (|wire|, flushed) when transport.Close was called
 
 inductive Act (α : Type) where
-  -- async writers
+  -- write calls
+  | beginWrite                 -- entry check `closedError() == nil` passed
+  | rejectWrite                -- entry check failed: the call returns the close error
   | enqueue (p : α)            -- select: `c.writeQueue <- packet`
   | noSpace                    -- select default branch (non-blocking mode)
+  | abortCtx                   -- select: caller context done -> return ctx.Err(), nothing queued
+  | abortClosed                -- select: channel context done -> return the close error, nothing queued
   | casWriter                  -- `CompareAndSwap(&running, idle, running)` after an enqueue
   | exec                       -- executor starts writeOnce
   -- the owner
-  | sndRecv | sndDefault | sndWritev (ok : Bool) | sndPut | sndLen1 | sndFlush (ok : Bool) | sndStore | sndFailStore
+  | sndRecv | sndDefault | sndWritev (ok : Bool) | sndPut | sndLen1 | sndFlush (ok : Bool) | sndStore | sndFailMark | sndFailStore
   -- after release
   | lingLen (i : Nat) | lingCas (i : Nat)
   -- sync writers
   | lock | syncWrite (p : α) (ok : Bool) | syncFlush
   -- Close
-  | closeCas | closeLoad | closeSleep | closeSetErr | closeTr | closeCancel | closeFire
+  | closeCas | closeLen | closeLoad | closeSleep | closeSetErr | closeTr | closeCancel | closeFire
   deriving Repr
 
 variable {α : Type}
@@ -83,11 +93,15 @@ def batchCap (s : St α) : Nat := s.cap / 2 + 1
 
 /-- one step; `none` = the action is not enabled in `s` -/
 def step (s : St α) : Act α → Option (St α)
+  | .beginWrite => if s.closed then none else some { s with inflight := s.inflight + 1 }
+  | .rejectWrite => if s.closed then some s else none
   | .enqueue p =>
-    if !s.sync && s.q.length < s.cap then
-      some { s with q := s.q ++ [p], accepted := s.accepted ++ [p], pendingCas := s.pendingCas + 1 }
+    if !s.sync && s.inflight > 0 && s.q.length < s.cap then
+      some { s with q := s.q ++ [p], accepted := s.accepted ++ [p], pendingCas := s.pendingCas + 1, inflight := s.inflight - 1 }
     else none
-  | .noSpace => if !s.sync && !s.untilW && s.q.length = s.cap then some s else none
+  | .noSpace => if !s.sync && s.inflight > 0 && !s.untilW && s.q.length = s.cap then some { s with inflight := s.inflight - 1 } else none
+  | .abortCtx => if !s.sync && s.inflight > 0 then some { s with inflight := s.inflight - 1 } else none
+  | .abortClosed => if !s.sync && s.inflight > 0 && s.ctxDone then some { s with inflight := s.inflight - 1 } else none
   | .casWriter =>
     if s.pendingCas = 0 then none
     else if s.running then some { s with pendingCas := s.pendingCas - 1 }
@@ -132,9 +146,13 @@ def step (s : St α) : Act α → Option (St α)
     match s.snd with
     | some .store => some { s with running := false, snd := none, batch := [], lingering := s.lingering ++ [.len2] }
     | _ => none
+  | .sndFailMark =>
+    match s.snd with
+    | some .failed => some { s with sendFailed := true, snd := some .failedStore }
+    | _ => none
   | .sndFailStore =>
     match s.snd with
-    | some .failed => some { s with running := false, snd := none }
+    | some .failedStore => some { s with running := false, snd := none }
     | _ => none
   | .lingLen i =>
     match s.lingering[i]? with
@@ -150,7 +168,7 @@ def step (s : St α) : Act α → Option (St α)
         | some _ => none
         | none => some { s with running := true, snd := some .poll, batch := [], lingering := s.lingering.eraseIdx i }
     | _ => none
-  | .lock => if s.sync && !s.lockHeld then some { s with lockHeld := true } else none
+  | .lock => if s.sync && !s.lockHeld && s.inflight > 0 then some { s with lockHeld := true, inflight := s.inflight - 1 } else none
   | .syncWrite p ok =>
     if s.sync && s.lockHeld && !s.syncWrote then
       if ok && !s.trClosed then some { s with wire := s.wire ++ [p], accepted := s.accepted ++ [p], syncWrote := true }
@@ -164,16 +182,22 @@ def step (s : St α) : Act α → Option (St α)
     if s.closed then some s                      -- a losing Close: returns at once
     else match s.closer with
       | some _ => none
-      | none => some { s with closed := true, closer := some (if s.sync then .setErr else .load 0) }
-  | .closeLoad =>
+      | none => some { s with closed := true, closer := some (if s.sync then .setErr else .len 0) }
+  | .closeLen =>                                   -- `if 0 == len(c.writeQueue) || 0 != sendFailed`
+    match s.closer with
+    | some (.len n) =>
+      if s.q.length = 0 || s.sendFailed then some { s with closer := some (.load n), accAtLen := s.accepted.length }
+      else some { s with closer := some (.sleep (n+1)) }
+    | _ => none
+  | .closeLoad =>                                  -- `if idle == running { break }`
     match s.closer with
     | some (.load n) =>
-      if (s.untilW || n < 10) && s.running then some { s with closer := some (.sleep (n+1)) }
-      else some { s with closer := some .setErr, acceptedAtClose := some s.accepted.length }
+      if s.running then some { s with closer := some (.sleep (n+1)) }
+      else some { s with closer := some .setErr, graceful := true }
     | _ => none
-  | .closeSleep =>
+  | .closeSleep =>                                 -- wake up, re-evaluate `untilWrite || maxWaitNum < 10`
     match s.closer with
-    | some (.sleep n) => some { s with closer := some (.load n) }
+    | some (.sleep n) => some { s with closer := some (if s.untilW || n < 10 then .len n else .setErr) }
     | _ => none
   | .closeSetErr =>
     match s.closer with
@@ -181,7 +205,7 @@ def step (s : St α) : Act α → Option (St α)
     | _ => none
   | .closeTr =>
     match s.closer with
-    | some .trClose => some { s with trClosed := true, broken := true, closer := some .cancel, trCloseWire := some (s.wire.length, s.flushed) }
+    | some .trClose => some { s with trClosed := true, broken := true, closer := some .cancel, closeCount := s.closeCount + 1, trCloseWire := some (s.wire.length, s.flushed) }
     | _ => none
   | .closeCancel =>
     match s.closer with
@@ -198,6 +222,6 @@ def run (s : St α) : List (Act α) → Option (St α)
 
 /-- nothing left to run: no client mid-call, no framework goroutine alive -/
 def St.quiescent (s : St α) : Bool :=
-  s.pendingCas == 0 && s.execPending == 0 && s.snd.isNone && s.lingering.isEmpty && s.closer.isNone && !s.lockHeld
+  s.pendingCas == 0 && s.inflight == 0 && s.execPending == 0 && s.snd.isNone && s.lingering.isEmpty && s.closer.isNone && !s.lockHeld
 
 end NettyVerif.Chan
